@@ -1,7 +1,455 @@
 package main
 
-// replayModel turns a solver model into a run of the real function. Implemented in replay_go.go
-// for the supported parameter shapes; returns (reproduced, log).
-func replayModel(prog *Program, prop string, r *oblResult, name string) (bool, string) {
-	return false, "no replay generator for this function shape; the model above is the verifier's counterexample"
+import (
+	"bytes"
+	"context"
+	"encoding/json"
+	"fmt"
+	"go/ast"
+	"go/token"
+	"go/types"
+	"os"
+	"os/exec"
+	"path/filepath"
+	"regexp"
+	"strconv"
+	"strings"
+	"time"
+)
+
+const replayWindow = 48 // bytes of each []byte parameter read back from the model
+
+// replayTerms lists extra model terms needed to rebuild the inputs of g.fn.
+func (g *Gen) replayTerms() []ModelVar {
+	var out []ModelVar
+	for _, mv := range g.modelVars {
+		out = append(out, mv)
+		if mv.Sort.K == KSlice && (mv.GoT == "[]byte" || mv.GoT == "[]uint8") {
+			h := "|E.uint8@in|"
+			if !g.declared[h] {
+				continue
+			}
+			for j := 0; j < replayWindow; j++ {
+				out = append(out, ModelVar{Name: fmt.Sprintf("%s[%d]", mv.Name, j), Term: fmt.Sprintf("(select (select %s (s_obj %s)) (+ (s_off %s) %d))", h, mv.Term, mv.Term, j), Sort: SBV8})
+				out = append(out, ModelVar{Name: fmt.Sprintf("%s[-%d]", mv.Name, j+1), Term: fmt.Sprintf("(select (select %s (s_obj %s)) (+ (s_off %s) (- (s_len %s) %d)))", h, mv.Term, mv.Term, mv.Term, j+1), Sort: SBV8})
+			}
+		}
+		if mv.Sort.K == KStr {
+			for j := 0; j < replayWindow; j++ {
+				out = append(out, ModelVar{Name: fmt.Sprintf("%s[%d]", mv.Name, j), Term: fmt.Sprintf("(select (sarr %s) %d)", mv.Term, j), Sort: SBV8})
+			}
+			out = append(out, ModelVar{Name: mv.Name + ".len", Term: "(slen " + mv.Term + ")", Sort: SMath})
+		}
+	}
+	return out
 }
+
+// parseModelValues parses the "((term value) ...)" answer of get-value positionally.
+func parseModelValues(out string, n int) []string {
+	out = strings.TrimSpace(out)
+	if !strings.HasPrefix(out, "(") {
+		return nil
+	}
+	ch := sexpChildren(out)
+	var vals []string
+	for _, c := range ch {
+		pc := sexpChildren(c)
+		if len(pc) != 2 {
+			return nil
+		}
+		vals = append(vals, pc[1])
+	}
+	if len(vals) != n {
+		return nil
+	}
+	return vals
+}
+
+func smtInt(v string) (int64, bool) {
+	v = strings.TrimSpace(v)
+	if strings.HasPrefix(v, "(-") {
+		n, err := strconv.ParseInt(strings.TrimSpace(strings.Trim(v, "()-")), 10, 64)
+		return -n, err == nil
+	}
+	n, err := strconv.ParseInt(v, 10, 64)
+	return n, err == nil
+}
+
+func smtBV(v string) (uint64, bool) {
+	v = strings.TrimSpace(v)
+	if strings.HasPrefix(v, "#x") {
+		n, err := strconv.ParseUint(v[2:], 16, 64)
+		return n, err == nil
+	}
+	if strings.HasPrefix(v, "#b") {
+		n, err := strconv.ParseUint(v[2:], 2, 64)
+		return n, err == nil
+	}
+	return 0, false
+}
+
+// goOracle compiles a contract expression to Go source. ok=false when a construct has no
+// executable rendering (fresh, object identity, ghost state ...).
+type goOracle struct {
+	g      *Gen
+	olds   map[string]string // expression text -> snapshot variable
+	bound  map[string]bool
+	ok     bool
+	reason string
+	maxLen string
+}
+
+func (o *goOracle) bad(why string) string {
+	if o.ok {
+		o.ok = false
+		o.reason = why
+	}
+	return "true"
+}
+
+var specGoFuncs = map[string]bool{"bytes_eq": true, "is_enc": true, "be64_of": true, "lexlt": true, "has_prefix": true, "bytes_contains": true, "in_alphabet": true, "bytes_cmp": true, "has_suffix": true}
+
+func (o *goOracle) expr(x ast.Expr) string {
+	switch v := x.(type) {
+	case *ast.ParenExpr:
+		return "(" + o.expr(v.X) + ")"
+	case *ast.BasicLit:
+		return v.Value
+	case *ast.Ident:
+		if v.Name == "MaxUint64" {
+			return "uint64(math.MaxUint64)"
+		}
+		return v.Name
+	case *ast.UnaryExpr:
+		return v.Op.String() + o.expr(v.X)
+	case *ast.BinaryExpr:
+		return "(" + o.expr(v.X) + " " + v.Op.String() + " " + o.expr(v.Y) + ")"
+	case *ast.IndexExpr:
+		return o.expr(v.X) + "[" + o.expr(v.Index) + "]"
+	case *ast.SliceExpr:
+		lo, hi := "", ""
+		if v.Low != nil {
+			lo = o.expr(v.Low)
+		}
+		if v.High != nil {
+			hi = o.expr(v.High)
+		}
+		return o.expr(v.X) + "[" + lo + ":" + hi + "]"
+	case *ast.SelectorExpr:
+		if id, ok := v.X.(*ast.Ident); ok {
+			if _, isParam := o.g.paramEnv[id.Name]; !isParam {
+				return id.Name + "." + v.Sel.Name
+			}
+		}
+		switch v.Sel.Name {
+		case "obj", "off", "cap":
+			return o.bad("object identity (" + exprString(v) + ") is not observable by a test")
+		}
+		return o.expr(v.X) + "." + v.Sel.Name
+	case *ast.CallExpr:
+		fn, ok := v.Fun.(*ast.Ident)
+		if !ok {
+			return o.bad("unsupported call")
+		}
+		switch fn.Name {
+		case "old":
+			key := exprString(v.Args[0])
+			// old(e) with bound variables inside: snapshot the base slices instead
+			inner := o.exprOld(v.Args[0])
+			_ = key
+			return inner
+		case "len", "cap", "uint64", "int", "int64", "byte", "uint32", "uint8", "int32":
+			return fn.Name + "(" + o.expr(v.Args[0]) + ")"
+		case "implies":
+			return "(!(" + o.expr(v.Args[0]) + ") || (" + o.expr(v.Args[1]) + "))"
+		case "iff":
+			return "((" + o.expr(v.Args[0]) + ") == (" + o.expr(v.Args[1]) + "))"
+		case "ite":
+			return "func() " + "interface{}" + " { if " + o.expr(v.Args[0]) + " { return " + o.expr(v.Args[1]) + " }; return " + o.expr(v.Args[2]) + " }()"
+		case "fresh":
+			return "true /* fresh: not observable */"
+		case "is_nil":
+			return "(" + o.expr(v.Args[0]) + " == nil)"
+		case "forall", "exists":
+			id, ok := v.Args[0].(*ast.Ident)
+			if !ok {
+				return o.bad("quantifier over a non-integer variable")
+			}
+			o.bound[id.Name] = true
+			var cond, body string
+			if len(v.Args) >= 3 {
+				cond, body = o.expr(v.Args[1]), o.expr(v.Args[2])
+			} else {
+				cond, body = "true", o.expr(v.Args[1])
+			}
+			if fn.Name == "forall" {
+				return fmt.Sprintf("func() bool { for %s := -2; %s <= kbvMaxLen+2; %s++ { if %s { if !(%s) { return false } } }; return true }()", id.Name, id.Name, id.Name, cond, body)
+			}
+			return fmt.Sprintf("func() bool { for %s := -2; %s <= kbvMaxLen+2; %s++ { if %s { if %s { return true } } }; return false }()", id.Name, id.Name, id.Name, cond, body)
+		}
+		if specGoFuncs[fn.Name] {
+			var args []string
+			for _, a := range v.Args {
+				args = append(args, o.expr(a))
+			}
+			return "spec_" + fn.Name + "(" + strings.Join(args, ", ") + ")"
+		}
+		return o.bad("spec function " + fn.Name + " has no executable rendering")
+	}
+	return o.bad("unsupported expression")
+}
+
+// exprOld renders e evaluated in the pre-state: parameters of slice type are replaced by
+// their snapshots (taken before the call).
+func (o *goOracle) exprOld(x ast.Expr) string {
+	s := o.expr(x)
+	for name, t := range o.g.paramEnv {
+		if t.So.K == KSlice {
+			s = regexp.MustCompile(`\b`+regexp.QuoteMeta(name)+`\b`).ReplaceAllString(s, "old_"+name)
+		}
+	}
+	return s
+}
+
+// replayModel builds an in-package test from the model, runs it against the real code with
+// go test -overlay, and reports whether the violation was reproduced.
+func replayModel(prog *Program, prop string, r *oblResult, name string) (bool, string) {
+	g := r.G
+	fn := g.fn
+	if fn == nil || fn.Pkg == nil {
+		return false, "no function"
+	}
+	terms := g.replayTerms()
+	vals := parseModelValues(r.Res.Model, len(terms))
+	if vals == nil {
+		return false, "the solver's model could not be parsed (" + r.Res.Solver + ")"
+	}
+	mv := map[string]string{}
+	for i, t := range terms {
+		mv[t.Name] = vals[i]
+	}
+	// receiver / parameters
+	var decls []string
+	var args []string
+	recvExpr := ""
+	maxLen := 0
+	for i, p := range fn.Params {
+		pt := p.Type()
+		if i == 0 && fn.Signature.Recv() != nil {
+			ptr, ok := pt.Underlying().(*types.Pointer)
+			if !ok {
+				return false, "receiver shape not supported by the replay generator"
+			}
+			st, ok := ptr.Elem().Underlying().(*types.Struct)
+			if !ok || st.NumFields() != 0 {
+				return false, "receiver has state; the replay generator only rebuilds stateless receivers"
+			}
+			recvExpr = "(&" + types.TypeString(ptr.Elem(), func(*types.Package) string { return "" }) + "{})"
+			continue
+		}
+		pname := p.Name()
+		if pname == "" || pname == "_" {
+			pname = fmt.Sprintf("p%d", i)
+		}
+		v := mv[p.Name()]
+		switch u := pt.Underlying().(type) {
+		case *types.Slice:
+			if b, ok := u.Elem().Underlying().(*types.Basic); !ok || b.Kind() != types.Uint8 {
+				return false, "parameter " + pname + " has a slice type the replay generator does not rebuild"
+			}
+			ch := sexpChildren(v)
+			if len(ch) != 5 {
+				return false, "slice model value not understood: " + v
+			}
+			obj, _ := smtInt(ch[1])
+			ln, _ := smtInt(ch[3])
+			if obj == 0 {
+				decls = append(decls, fmt.Sprintf("var %s []byte", pname))
+				break
+			}
+			if ln > 1<<16 {
+				return false, fmt.Sprintf("model needs a %d-byte input; skipped", ln)
+			}
+			var bs []string
+			for j := int64(0); j < ln; j++ {
+				b := uint64(0)
+				if j < replayWindow {
+					b, _ = smtBV(mv[fmt.Sprintf("%s[%d]", p.Name(), j)])
+				} else if ln-j <= replayWindow {
+					b, _ = smtBV(mv[fmt.Sprintf("%s[-%d]", p.Name(), ln-j)])
+				}
+				bs = append(bs, fmt.Sprintf("0x%02x", b))
+			}
+			if int(ln) > maxLen {
+				maxLen = int(ln)
+			}
+			decls = append(decls, fmt.Sprintf("%s := []byte{%s}", pname, strings.Join(bs, ", ")))
+		case *types.Basic:
+			switch {
+			case u.Info()&types.IsUnsigned != 0:
+				n, ok := smtBV(v)
+				if !ok {
+					return false, "value of " + pname + " not understood: " + v
+				}
+				decls = append(decls, fmt.Sprintf("%s := %s(%d)", pname, types.TypeString(pt, func(*types.Package) string { return "" }), n))
+			case u.Info()&types.IsInteger != 0:
+				n, ok := smtInt(v)
+				if !ok {
+					return false, "value of " + pname + " not understood: " + v
+				}
+				decls = append(decls, fmt.Sprintf("%s := %s(%d)", pname, types.TypeString(pt, func(*types.Package) string { return "" }), n))
+			case u.Kind() == types.Bool:
+				decls = append(decls, fmt.Sprintf("%s := %s", pname, v))
+			case u.Kind() == types.String:
+				ln, _ := smtInt(mv[p.Name()+".len"])
+				if ln > 1<<16 {
+					return false, "string too long"
+				}
+				var bs []string
+				for j := int64(0); j < ln; j++ {
+					b := uint64(0)
+					if j < replayWindow {
+						b, _ = smtBV(mv[fmt.Sprintf("%s[%d]", p.Name(), j)])
+					}
+					bs = append(bs, fmt.Sprintf("0x%02x", b))
+				}
+				if int(ln) > maxLen {
+					maxLen = int(ln)
+				}
+				decls = append(decls, fmt.Sprintf("%s := string([]byte{%s})", pname, strings.Join(bs, ", ")))
+			default:
+				return false, "parameter " + pname + " has a type the replay generator does not rebuild"
+			}
+		default:
+			return false, "parameter " + pname + " (" + pt.String() + ") is not rebuilt by the replay generator"
+		}
+		args = append(args, pname)
+		if t, ok := g.paramEnv[p.Name()]; ok && t.So.K == KSlice {
+			decls = append(decls, fmt.Sprintf("old_%s := append([]byte(nil), %s...); _ = old_%s", pname, pname, pname))
+		}
+	}
+	// contract parameter aliases
+	if g.ct != nil {
+		off := 0
+		if fn.Signature.Recv() != nil {
+			off = 1
+		}
+		for i, n := range g.ct.Params {
+			if off+i < len(fn.Params) && fn.Params[off+i].Name() != n {
+				decls = append(decls, fmt.Sprintf("%s := %s; _ = %s", n, fn.Params[off+i].Name(), n))
+				if g.paramEnv[n].So.K == KSlice {
+					decls = append(decls, fmt.Sprintf("old_%s := old_%s; _ = old_%s", n, fn.Params[off+i].Name(), n))
+				}
+			}
+		}
+	}
+	// call
+	res := fn.Signature.Results()
+	var resNames []string
+	for i := 0; i < res.Len(); i++ {
+		resNames = append(resNames, fmt.Sprintf("result%d", i))
+	}
+	call := fn.Name() + "(" + strings.Join(args, ", ") + ")"
+	if recvExpr != "" {
+		call = recvExpr + "." + call
+	}
+	var body bytes.Buffer
+	for _, d := range decls {
+		body.WriteString("\t" + d + "\n")
+	}
+	fmt.Fprintf(&body, "\tkbvMaxLen := %d; _ = kbvMaxLen\n", maxLen+16)
+	isSafety := strings.HasPrefix(r.O.Kind, "safety")
+	body.WriteString("\tdefer func() {\n\t\tif p := recover(); p != nil {\n")
+	if isSafety {
+		body.WriteString("\t\t\tt.Fatalf(\"KBV-REPRODUCED: the real function panicked on the verifier's input: %v\", p)\n")
+	} else {
+		body.WriteString("\t\t\tt.Fatalf(\"KBV-REPRODUCED: the real function panicked on the verifier's input (the contract does not allow it): %v\", p)\n")
+	}
+	body.WriteString("\t\t}\n\t}()\n")
+	if len(resNames) > 0 {
+		body.WriteString("\t" + strings.Join(resNames, ", ") + " := " + call + "\n")
+		for _, rn := range resNames {
+			body.WriteString("\t_ = " + rn + "\n")
+		}
+	} else {
+		body.WriteString("\t" + call + "\n")
+	}
+	if !isSafety {
+		if r.O.Kind != "post" || g.ct == nil {
+			return false, "obligation kind " + r.O.Kind + " has no executable oracle (not a postcondition of a callable function)"
+		}
+		// bind result names
+		if len(resNames) > 0 {
+			body.WriteString("\tresult := result0; _ = result\n")
+		}
+		for i := 0; i < res.Len(); i++ {
+			if n := res.At(i).Name(); n != "" && n != "_" && n != fmt.Sprintf("result%d", i) {
+				fmt.Fprintf(&body, "\t%s := result%d; _ = %s\n", n, i, n)
+			}
+			if i < len(g.ct.Results) {
+				n := g.ct.Results[i]
+				if n != res.At(i).Name() && n != "result" {
+					fmt.Fprintf(&body, "\t%s := result%d; _ = %s\n", n, i, n)
+				}
+			}
+		}
+		var clause *Clause
+		label := strings.TrimPrefix(r.O.Name[strings.LastIndex(r.O.Name, ":")+1:], "post.")
+		if i := strings.Index(label, "#"); i >= 0 {
+			label = label[:i]
+		}
+		for i := range g.ct.Ensures {
+			c := &g.ct.Ensures[i]
+			if c.Label == label || (c.Label == "" && fmt.Sprint(i) == label) {
+				clause = c
+			}
+		}
+		if clause == nil {
+			return false, "clause not found"
+		}
+		o := &goOracle{g: g, olds: map[string]string{}, bound: map[string]bool{}, ok: true}
+		src := o.expr(clause.Expr)
+		if !o.ok {
+			return false, "the failing clause cannot be evaluated by a test: " + o.reason
+		}
+		fmt.Fprintf(&body, "\tif !(%s) {\n\t\tt.Fatalf(\"KBV-REPRODUCED: postcondition %%q is false on the verifier's input\", %q)\n\t}\n", src, clause.Text)
+	}
+	body.WriteString("\tt.Log(\"KBV-NOT-REPRODUCED\")\n")
+
+	// assemble the overlay
+	pkgDir := ""
+	pkgName := fn.Pkg.Pkg.Name()
+	for _, pk := range prog.pkgs {
+		if pk.PkgPath == fn.Pkg.Pkg.Path() && len(pk.GoFiles) > 0 {
+			pkgDir = filepath.Dir(pk.GoFiles[0])
+		}
+	}
+	if pkgDir == "" {
+		return false, "package directory not found"
+	}
+	specGo, err := os.ReadFile(filepath.Join(verifDir, "spec", "specfuncs.go.txt"))
+	if err != nil {
+		return false, "spec function renderings missing"
+	}
+	test := fmt.Sprintf("package %s\n\nimport (\n\t\"math\"\n\t\"testing\"\n)\n\nvar _ = math.MaxInt8\n\nfunc TestKbvReplay(t *testing.T) {\n%s}\n\n%s\n", pkgName, body.String(), string(specGo))
+	rdir := filepath.Join(verifDir, "replays", prop)
+	testPath := filepath.Join(rdir, name+"_test.go.txt")
+	_ = os.WriteFile(testPath, []byte(test), 0o644)
+	ov := map[string]map[string]string{"Replace": {filepath.Join(pkgDir, "zz_kbv_replay_test.go"): testPath}}
+	ovb, _ := json.Marshal(ov)
+	ovPath := filepath.Join(rdir, name+".overlay.json")
+	_ = os.WriteFile(ovPath, ovb, 0o644)
+	ctx, cancel := context.WithTimeout(context.Background(), 180*time.Second)
+	defer cancel()
+	cmd := exec.CommandContext(ctx, "go", "test", "-overlay", ovPath, "-vet=off", "-count=1", "-timeout", "60s", "-run", "^TestKbvReplay$", "-v", ".")
+	cmd.Dir = pkgDir
+	cmd.Env = append(os.Environ(), "GOFLAGS=-mod=mod", "GOPROXY=off", "GOSUMDB=off", "GOTOOLCHAIN=local")
+	out, _ := cmd.CombinedOutput()
+	log := fmt.Sprintf("replay test: %s\ncommand: (cd %s && go test -overlay %s -vet=off -count=1 -timeout 60s -run '^TestKbvReplay$' -v .)\n%s", testPath, pkgDir, ovPath, string(out))
+	if strings.Contains(string(out), "KBV-REPRODUCED") {
+		return true, log
+	}
+	return false, log
+}
+
+var _ = token.ADD
